@@ -83,6 +83,10 @@ class FieldOperatorTerm:
                    (self.opdesc[i].otype == IFOType.adjoint(self.opdesc[n-1-i].otype))
                    for i in range(n)):
             return False
+        if self.coeffs.shape != self.coeffs.T.shape:
+            # entry-wise comparison with the transpose needs equal shapes
+            # (NumPy would otherwise broadcast, e.g., a (1, L) against a (L, 1) array)
+            return False
         return np.allclose(self.coeffs, self.coeffs.conj().T)
 
     def fields(self):
